@@ -44,6 +44,10 @@ func Motifs() []*Case {
 	out = append(out, motifCase("chain", []*Step{pstep("a", map[string]*Val{"a": inI}), pstep("b", map[string]*Val{"a": oexpr("a", "outputs", "success", "v")}), pstep("c", map[string]*Val{"b": oexpr("b", "outputs", "success", "s")})},
 		map[string]*Val{"success": MapVal([]string{"r"}, []*Val{oexpr("c", "outputs", "success")})},
 		map[string]vplug.Behaviour{"a": slow(20, "success"), "b": slow(10, "success"), "c": slow(5, "success")}, nil))
+	// two independent steps that finish 5 ms apart, the result needs both
+	out = append(out, motifCase("join", []*Step{pstep("a", nil), pstep("b", nil)},
+		map[string]*Val{"success": MapVal([]string{"x", "y"}, []*Val{oexpr("a", "outputs", "success", "s"), oexpr("b", "outputs", "success", "s")})},
+		map[string]vplug.Behaviour{"a": slow(20, "success"), "b": slow(25, "success")}, nil))
 	wf := pstep("b", nil)
 	wf.WaitFor = oexpr("a", "outputs", "success")
 	out = append(out, motifCase("wait-for", []*Step{pstep("a", nil), wf},
